@@ -64,11 +64,11 @@ func (c09) Budget(tier string) runner.Budget {
 
 func (c09) Describe() runner.Description {
 	return runner.Description{
-		Rule: "each plan: (A) a node casts 1..4 blocks with transfer / contract transactions; every block, header, transaction and group the node produced or parsed is sent through Marshal/UnMarshal: the parsed object must re-hash to the sender's identifying hash and re-marshal to identical bytes; a block accepted by one incarnation is relayed as bytes and must be accepted by another with the same hash; edge-valued in-memory headers/transactions/groups (times in a seeded zone with sub-second part, zero and maximal integers, nil vs empty byte fields, prove values whose bytes start with zeros, request-id maps, empty and 200-transaction bodies) must reach a fixed point after one marshal/parse pass; the genesis header and fully populated boundary headers (prove value 0/1/255/256, zero counters, epoch times) and 10 seeded transactions with unusual field texts (upper-case / EIP-55 / 0X-prefixed / non-address sources and targets, binary and unicode data, extreme nonces and request ids) must keep their hash and every field. (B) 20..120 corrupted deliveries: valid bytes of each message kind are bit-flipped, truncated, extended, stripped of one optional protobuf field, or replaced by random bytes, and handed to the exported parsers directly and, as envelopes, to the node's receive path (NewBlockMsg, ReqTransactionMsg, TransactionGotMsg handlers run as scheduler tasks). Any panic is a violation; afterwards an intact block must still be accepted. evaluations = codec round trips + corrupted deliveries. distinct_nontrivial = distinct (message kind, corruption kind, parse outcome, path) tuples.",
+		Rule:        "each plan: (A) a node casts 1..4 blocks with transfer / contract transactions; every block, header, transaction and group the node produced or parsed is sent through Marshal/UnMarshal: the parsed object must re-hash to the sender's identifying hash and re-marshal to identical bytes; a block accepted by one incarnation is relayed as bytes and must be accepted by another with the same hash; edge-valued in-memory headers/transactions/groups (times in a seeded zone with sub-second part, zero and maximal integers, nil vs empty byte fields, prove values whose bytes start with zeros, request-id maps, empty and 200-transaction bodies) must reach a fixed point after one marshal/parse pass; the genesis header and fully populated boundary headers (prove value 0/1/255/256, zero counters, epoch times) and 10 seeded transactions with unusual field texts (upper-case / EIP-55 / 0X-prefixed / non-address sources and targets, binary and unicode data, extreme nonces and request ids) must keep their hash and every field; bytes returned by any Marshal call must not change when the codec is used again. (B) 20..120 corrupted deliveries: valid bytes of each message kind are bit-flipped, truncated, extended, stripped of one optional protobuf field, or replaced by random bytes, and handed to the exported parsers directly and, as envelopes or as gateway frames (every method code, with the network-id prefix of the to-manager method, also cut short), to the node's receive path (NewBlockMsg, ReqTransactionMsg, TransactionGotMsg handlers run as scheduler tasks). Any panic is a violation; afterwards an intact block must still be accepted. evaluations = codec round trips + corrupted deliveries. distinct_nontrivial = distinct (message kind, corruption kind, parse outcome, path) tuples.",
 		Assumptions: []string{"consensus message decoders run under ConsensusHandler.Handle's recover() and cannot crash the process; they are not driven here", "sync-processor message kinds are not driven (the sync processor is not started)"},
 		Real:        []string{"middleware/types serialization (all Marshal*/UnMarshal*, PbTo*)", "network envelope codec and receive dispatch", "core ChainHandler (new block, transaction request)", "notify bus fan-out under the simulated scheduler", "golang/protobuf"},
 		Stub:        []string{"websocket gate", "ConsensusHelper", "sync processor / consensus handler"},
-		FaultKinds:  []string{"corrupt_bitflip", "corrupt_truncate", "corrupt_extend", "corrupt_dropfield", "corrupt_random", "relay_between_incarnations"},
+		FaultKinds:  []string{"corrupt_bitflip", "corrupt_truncate", "corrupt_extend", "corrupt_dropfield", "corrupt_random", "relay_between_incarnations", "frame_truncated"},
 	}
 }
 
@@ -426,6 +426,52 @@ func (c09) Exec(raw json.RawMessage, st *simrt.Stats, log *simrt.Log) *simrt.Vio
 			st.Evaluations++
 		}
 	}
+	// bytes handed out by a Marshal call belong to the caller: using the codec again (the node marshals the
+	// next message while the previous one is still queued for sending) must not change them
+	{
+		var lists [][]*types.Transaction
+		for _, b := range blocks {
+			if len(b.Transactions) > 0 {
+				lists = append(lists, b.Transactions)
+			}
+		}
+		extra := []*types.Transaction{node.TransferTx(node.Funded[1], 0, map[string]string{node.Account(6): "2"}, fmt.Sprintf("c9-alias-%d", p.Seed)),
+			node.TransferTx(node.Funded[2], 0, map[string]string{node.Account(7): "3"}, fmt.Sprintf("c9-alias2-%d", p.Seed))}
+		lists = append(lists, extra, extra[:1])
+		type held struct {
+			kind string
+			got  []byte
+			want []byte
+		}
+		var hs []held
+		hold := func(kind string, b []byte, err error) {
+			if err == nil {
+				hs = append(hs, held{kind, b, append([]byte{}, b...)})
+			}
+		}
+		for round := 0; round < 2; round++ {
+			for _, l := range lists {
+				b, err := types.MarshalTransactions(l)
+				hold("transactions", b, err)
+				b, err = types.MarshalTransaction(l[0])
+				hold("transaction", b, err)
+			}
+			for _, blk := range blocks {
+				b, err := types.MarshalBlock(blk)
+				hold("block", b, err)
+				b, err = types.MarshalBlockHeader(blk.Header)
+				hold("header", b, err)
+			}
+			b, err := types.MarshalGroup(g)
+			hold("group", b, err)
+		}
+		for _, h := range hs {
+			if !bytes.Equal(h.got, h.want) {
+				return viol(-1, "marshalled-bytes-changed-later", h.kind, "bytes returned by a Marshal call for a %s message were modified by later Marshal calls (the buffer is still owned by the codec)", h.kind)
+			}
+		}
+		st.Evaluations++
+	}
 	// relay: another incarnation accepts the relayed bytes with the same hashes
 	{
 		rn := node.Boot(genesisImage.Clone(), node.ForksLatestSync, true)
@@ -525,12 +571,38 @@ func (c09) Exec(raw json.RawMessage, st *simrt.Stats, log *simrt.Log) *simrt.Vio
 				} else {
 					env, _ = network.SimMarshalMessage(network.Message{Code: code, Body: body})
 				}
-				where, msg := guarded(func() { network.SimDeliver(env, "peer-9") })
+				how := "envelope"
+				where, msg := guarded(func() {
+					if c.Arg%2 == 0 {
+						network.SimDeliver(env, "peer-9")
+						return
+					}
+					// as a websocket frame relayed by the gateway: protocol header (method, source, ...) + body;
+					// for the to-manager method the body starts with a 32-byte network id
+					methods := network.SimMethods()
+					mi := (c.Arg / 2) % len(methods)
+					body := env
+					if mi == 3 {
+						body = append(make([]byte, 32), env...)
+					}
+					frame := network.SimFrameFor(methods[mi], 9, body)
+					how = fmt.Sprintf("frame-method%d", mi)
+					if (c.Arg/16)%5 == 0 {
+						// the frame itself is cut short (below the header size, header only, a few body bytes)
+						cut := (c.Arg / 80) % 64
+						if cut < len(frame) {
+							frame = frame[:cut]
+						}
+						how += "-truncated"
+						st.Fault("frame_truncated")
+					}
+					network.SimFrame(frame)
+				})
 				if where != "" {
-					firstPanic = viol(i, "parser-panics", where, "receive path panicked on a %s-corrupted %s message: %s", c.Kind, c.Msg, msg)
+					firstPanic = viol(i, "parser-panics", where, "receive path panicked on a %s-corrupted %s message delivered as %s: %s", c.Kind, c.Msg, how, msg)
 					return
 				}
-				outcome = "delivered"
+				outcome = "delivered-" + how
 			} else {
 				var err error
 				where, msg := guarded(func() {
